@@ -29,3 +29,79 @@ Qed.
 
 Lemma re_match_mk_alt : forall s a b, re_match (mk_alt a b) s = re_match a s || re_match b s.
 Proof. intros s a b. apply re_match_mk_alt_aux. intros. apply re_match_Alt. Qed.
+
+(* ------------------------------------------------------------------ _QUOTED_STR_REGEX is the recogniser *)
+(* the shape the source has now; quoted_re_shape fails to check as soon as the pattern is edited *)
+Definition body_re (q : N) : re :=
+  alt_of [seq_of [Chr (CLit 92); Chr CAnyNoNl]; Chr (CIn true [ILit q; ILit 92])].
+Definition simple_re (q : N) : re :=
+  seq_of [Chr (CLit q); Star (body_re q); Chr (CLit q); Opt (Chr (CLit 10))].
+
+Lemma quoted_re_shape : quoted_re = alt_of [simple_re 34; simple_re 39].
+Proof. reflexivity. Qed.
+
+(* the four derivative states of simple_re q *)
+Definition st_T (q : N) : re := Seq (Chr (CLit q)) (Seq (Opt (Chr (CLit 10))) Eps).
+Definition st_1 (q : N) : re := Seq (Star (body_re q)) (st_T q).
+Definition st_2 (q : N) : re := Seq (Seq (Seq (Chr CAnyNoNl) Eps) (Star (body_re q))) (st_T q).
+Definition st_3 : re := Seq (Opt (Chr (CLit 10))) Eps.
+
+Lemma deriv_st_1 : forall q c, q <> 92 ->
+  deriv c (st_1 q) = if c =? q then st_3 else if c =? 92 then st_2 q else st_1 q.
+Proof.
+  intros q c Hq. unfold st_1, st_T, body_re. cbn.
+  destruct (c =? q) eqn:Eq; destruct (c =? 92) eqn:Eb; cbn; try reflexivity.
+  apply N.eqb_eq in Eq; apply N.eqb_eq in Eb; congruence.
+Qed.
+
+Lemma deriv_st_2 : forall q d, deriv d (st_2 q) = if d =? 10 then Empty else st_1 q.
+Proof.
+  intros q d. unfold st_2, st_1, st_T, body_re. cbn.
+  destruct (d =? 10); cbn; reflexivity.
+Qed.
+
+Lemma match_st_3 : forall s,
+  re_match st_3 s = match s with [] => true | [x] => x =? 10 | _ => false end.
+Proof.
+  intros [|x s]; [reflexivity|].
+  unfold st_3. cbn. destruct (x =? 10); cbn.
+  - rewrite re_match_Eps. destruct s; reflexivity.
+  - rewrite re_match_Empty. destruct s; reflexivity.
+Qed.
+
+Lemma match_st_1 : forall q, q <> 92 -> forall n s, (length s <= n)%nat ->
+  re_match (st_1 q) s = scan_simple q s.
+Proof.
+  intros q Hq. induction n as [|n IH]; intros s Hn.
+  - destruct s; [reflexivity | cbn in Hn; lia].
+  - destruct s as [|c r]; [reflexivity|].
+    cbn [re_match scan_simple]. rewrite deriv_st_1 by assumption.
+    destruct (c =? q) eqn:Eq.
+    + rewrite match_st_3. destruct r as [|x [|y r']]; reflexivity.
+    + destruct (c =? 92) eqn:Eb.
+      * destruct r as [|d r']; [reflexivity|].
+        cbn [re_match]. rewrite deriv_st_2.
+        destruct (d =? 10); [apply re_match_Empty|].
+        apply IH. cbn in Hn. lia.
+      * apply IH. cbn in Hn. lia.
+Qed.
+
+Lemma match_simple_re : forall q s, q <> 92 -> re_match (simple_re q) s = simple_rec q s.
+Proof.
+  intros q s Hq. destruct s as [|c r]; [reflexivity|].
+  unfold simple_rec. cbn [re_match].
+  replace (deriv c (simple_re q)) with (if c =? q then st_1 q else Empty).
+  - destruct (c =? q); cbn [andb].
+    + apply match_st_1 with (n := length r); auto.
+    + apply re_match_Empty.
+  - unfold simple_re, st_1, st_T, body_re. cbn. destruct (c =? q); reflexivity.
+Qed.
+
+(* _QUOTED_STR_REGEX.match(s) is the hand-written recogniser for either quote *)
+Lemma quoted_regex_is_recogniser : forall s,
+  re_match quoted_re s = simple_rec 34 s || simple_rec 39 s.
+Proof.
+  intros s. rewrite quoted_re_shape. cbn [alt_of fold_right].
+  rewrite !re_match_Alt, re_match_Empty, orb_false_r.
+  rewrite !match_simple_re by discriminate. reflexivity.
+Qed.
